@@ -214,9 +214,22 @@ def gen_stale(r):
             "nclients": 1, "ops": []}
 
 
+def gen_overlap(r):
+    """An upload whose handler takes a while; meanwhile the same endpoint starts the next upload to the same resource
+    (same method and options, block 0 with more to come) and continues it while the first handler is still busy, or
+    after it has finished or failed."""
+    d = r.choice([0.3, 1.0, 5.0])
+    return {"overlap": {"method": r.choice(["PUT", "POST", "FETCH"]), "d": d, "szx": r.choice([0, 0, 2]),
+                        "nblocks_a": r.choice([1, 2, 3]), "nblocks_b": r.choice([2, 3]),
+                        "restart_at": r.choice([0.01, d / 2, d - 0.01]), "cont_at": r.choice([d / 2 + 0.02, d - 0.005, d + 0.001, d + 0.5, d + 20.0]),
+                        "first_fails": r.chance(0.25), "rlen": r.choice([8, 40])}, "nclients": 1, "ops": []}
+
+
 def gen(r, tier):
     if r.chance(0.12):
         return gen_concurrent(r)
+    if r.chance(0.05):
+        return gen_overlap(r)
     if r.chance(0.05):
         return gen_stale(r)
     if r.chance(0.05):
@@ -464,6 +477,111 @@ def execute_concurrent(sim, scn):
         sim.anomaly("loop-exception:%s" % en, "%s %s" % (m, es))
 
 
+def execute_overlap(sim, scn):
+    import asyncio
+    import aiocoap.resource as resource
+    from aiocoap import Message
+
+    loop = sim.loop
+    ov = scn["overlap"]
+    size = size_of(ov["szx"])
+    invocations = []
+
+    class Slow(resource.Resource):
+        async def _do(self, request):
+            rid = len(invocations) + 1
+            invocations.append({"rid": rid, "t": loop.now, "body": bytes(request.payload)})
+            sim.log("app", "invoke", rid, len(request.payload))
+            await asyncio.sleep(ov["d"])
+            if rid == 1 and ov.get("first_fails"):
+                raise RuntimeError("handler fails")
+            return Message(payload=rendering(rid, ov["rlen"]))
+
+        render_put = render_post = render_fetch = _do
+
+    async def setup():
+        site = resource.Site()
+        site.add_resource(["slow"], Slow())
+        return await sim.server(site, common.SERVER_IP)
+
+    loop.run_until_complete(setup())
+    srv = (common.SERVER_IP, 5683)
+    got = {}  # mid -> list of messages
+
+    class C(ScriptedEndpoint):
+        def handle(self, msg, src, data):
+            if msg is None:
+                return
+            if msg["type"] == rc.CON:
+                self.send(src, msg={"type": rc.ACK, "code": 0, "mid": msg["mid"], "token": b"", "options": [], "payload": b""})
+            if msg["code"] >= 64:
+                got.setdefault(bytes(msg["token"]), []).append(msg)
+
+    c = C(sim, common.PEER_IPS[0], 5683)
+    sim.probe("upload_restarted_while_handler_busy")
+    body_a = body(3, (ov["nblocks_a"] - 1) * size + 5)
+    body_b = body(4, (ov["nblocks_b"] - 1) * size + 9)
+    mid = [0x7200]
+
+    def send_block(which, data, num, t):
+        last = (num + 1) * size >= len(data)
+        tok = bytes([0xF2, which, num])
+        mid[0] += 1
+        c.send(srv, msg={"type": rc.CON, "code": METHODS[ov["method"]], "mid": mid[0], "token": tok,
+                         "options": [(rc.URI_PATH, b"slow"), (rc.BLOCK1, rc.block_bytes(num, not last, ov["szx"]))],
+                         "payload": data[num * size:(num + 1) * size]}, fate=["at", t])
+        return tok, last
+
+    plan = []  # (token, which, num, last)
+    for num in range(ov["nblocks_a"]):
+        tok, last = send_block(0, body_a, num, 0.1 + 0.01 * num)
+        plan.append((tok, 0, num, last))
+    t_final_a = 0.1 + 0.01 * (ov["nblocks_a"] - 1)
+    tok, last = send_block(1, body_b, 0, t_final_a + ov["restart_at"])
+    plan.append((tok, 1, 0, last))
+    for num in range(1, ov["nblocks_b"]):
+        tok, last = send_block(1, body_b, num, t_final_a + max(ov["cont_at"], ov["restart_at"] + 0.005) + 0.01 * (num - 1))
+        plan.append((tok, 1, num, last))
+    sim.run()
+    sim.nontrivial = True
+    for tok, which, num, last in plan:
+        ident = {"upload": "AB"[which], "block": num, "final": last, "method": ov["method"], "handler_takes": ov["d"],
+                 "restart_at": ov["restart_at"], "continued_at": ov["cont_at"], "first_fails": bool(ov.get("first_fails"))}
+        resps = [m for m in got.get(tok, []) if m["code"] != 0]
+        if len({rc.encode(dict(m, mid=0, type=rc.NON)) for m in resps}) != 1:
+            sim.violation("C06/overlapping-upload-block-not-answered-once", dict(ident, n=len(resps)))
+            continue
+        m = resps[0]
+        if not last:
+            b1 = rc.opt1(m, rc.BLOCK1)
+            if m["code"] != rc.code(2, 31) or b1 is None or rc.block_value(b1)[0] != num:
+                sim.violation("C06/intermediate-block-not-231", dict(ident, code=rc.code_str(m["code"])))
+            continue
+        if which == 0 and ov.get("first_fails"):
+            if m["code"] != rc.code(5, 0):
+                sim.violation("C06/failed-handler-not-500", dict(ident, code=rc.code_str(m["code"])))
+            continue
+        # the final block of an upload whose blocks 0..n all arrived in order, from one endpoint, under one key, with
+        # nothing of that endpoint in between but the END of its previous upload's processing: it extends its assembly
+        if m["code"] >> 5 != 2:
+            sim.violation("C06/continuation-of-fresh-assembly-refused", dict(ident, code=rc.code_str(m["code"])))
+            continue
+        want_body = body_b if which else body_a
+        try:
+            rid = int(m["payload"][:5])
+        except ValueError:
+            rid = None
+        inv = [i for i in invocations if i["rid"] == rid]
+        if not inv or inv[0]["body"] != want_body:
+            sim.violation("C06/handler-saw-wrong-body", dict(ident, rendering=rid, saw=None if not inv else inv[0]["body"][:24].hex(),
+                                                            expected=want_body[:24].hex()))
+    if [i["body"] for i in invocations] != [body_a, body_b]:
+        sim.violation("C06/handler-invocation-count", {"invocations": len(invocations), "expected": 2, "family": "overlap",
+                                                       "bodies": [i["body"][:12].hex() for i in invocations]})
+    for (t, m, en, es) in sim.loop_exceptions():
+        sim.anomaly("loop-exception:%s" % en, "%s %s" % (m, es))
+
+
 def execute_stale(sim, scn):
     import aiocoap.resource as resource
     from aiocoap import Message
@@ -564,6 +682,8 @@ def execute(sim, scn):
         return execute_concurrent(sim, scn)
     if scn.get("stale"):
         return execute_stale(sim, scn)
+    if scn.get("overlap"):
+        return execute_overlap(sim, scn)
     import aiocoap.resource as resource
     from aiocoap import Message
 
